@@ -72,5 +72,95 @@ JOBS['C13'] = Job('C13', mc='MC_TcpOpts', tag='OPTS', drive='opts-run', trace='T
                                'option payload bytes do not influence control flow; kind/length bytes are covered by the token alphabet'])
 
 
+def cks_extra(tier, seed):
+    r = random.Random(seed * 19 + 9)
+    out = []
+    big = tier != 'quick'
+
+    def rb(n, mode=None):
+        mode = mode or r.choice(['rnd', 'rnd', 'ff', 'zero', 'hi'])
+        if mode == 'ff':
+            return [255] * n
+        if mode == 'zero':
+            return [0] * n
+        if mode == 'hi':
+            return [r.choice([255, 254, 128, 0]) for _ in range(n)]
+        return [r.randrange(256) for _ in range(n)]
+    # accumulator: every length 0..70 (all residues of the 4 / 8 byte unrolled loops, odd and even), chunked randomly
+    for ln in range(0, 71):
+        for rep in range(3 if tier == 'quick' else 30):
+            data = rb(ln)
+            ops, pos = [], 0
+            while pos < ln:
+                left = ln - pos
+                c = r.choice(['b2', 'b4', 'b8', 'b16', 'slice', 'slice'])
+                n = {'b2': 2, 'b4': 4, 'b8': 8, 'b16': 16}.get(c)
+                if n is None:
+                    n = r.randrange(1, left + 1)
+                    if n % 2 and pos + n != ln:
+                        n += 1 if pos + n + 1 <= ln else -1
+                    if n <= 0:
+                        n = left
+                if n > left:
+                    c, n = 'slice', left
+                ops.append([c, data[pos:pos + n]])
+                pos += n
+            if not ops:
+                ops = [['slice', []]]
+            out.append({'kind': 'steps', 'ops': ops})
+    # wide register carries
+    for n in [0, 1, 2, 3, 100, 8191, 8192, 8193]:
+        for ln in [0, 1, 2, 3, 4, 5, 7, 8, 9, 15, 16, 17, 33]:
+            out.append({'kind': 'sat', 'n': n, 'bytes': rb(ln)})
+    # protocol checksums
+    lens = list(range(0, 40)) + [63, 64, 65, 127, 128, 129, 255, 256, 257, 511, 1023, 1472, 1500] + ([4000, 9000, 65000] if big else [])
+    addr4 = [[0, 0, 0, 0], [255, 255, 255, 255], [192, 168, 1, 1], [10, 0, 0, 200]]
+    for ln in lens:
+        for rep in range(2 if tier == 'quick' else 8):
+            pl = rb(ln)
+            s4, d4 = r.choice(addr4), r.choice(addr4)
+            s6, d6 = rb(16), rb(16, 'ff' if rep == 0 else None)
+            ports = rb(8)
+            out.append({'kind': 'udp4', 'src': s4, 'dst': d4, 'hdr': ports, 'payload': pl})
+            out.append({'kind': 'udp6', 'src': s6, 'dst': d6, 'hdr': ports, 'payload': pl})
+            doff = r.choice([5, 5, 6, 10, 15])
+            th = rb(20)
+            th[12] = (doff << 4) | (th[12] & 1)
+            th += [1] * (4 * (doff - 5))
+            out.append({'kind': 'tcp4', 'src': s4, 'dst': d4, 'hdr': th, 'payload': pl})
+            out.append({'kind': 'tcp6', 'src': s6, 'dst': d6, 'hdr': th, 'payload': pl})
+            t4 = r.choice([0, 3, 4, 5, 8, 11, 12, 13, 14, 40, 200])
+            c4 = r.choice([0, 0, 1, 2, 3, 5, 13, 15, 16])
+            ih = [t4, c4] + rb(6)
+            ipl = rb(12, 'rnd') if (t4 in (13, 14) and c4 == 0) else pl
+            out.append({'kind': 'icmp4', 'src': [], 'dst': [], 'hdr': ih, 'payload': ipl})
+            t6 = r.choice([1, 2, 3, 4, 128, 129, 130, 131, 132, 133, 134, 135, 136, 137, 143, 200])
+            i6 = [t6, r.choice([0, 0, 1, 2, 3, 4, 7])] + rb(6)
+            out.append({'kind': 'icmp6', 'src': s6, 'dst': d6, 'hdr': i6, 'payload': pl})
+            g = [r.choice([0x11, 0x12, 0x16, 0x17, 0x22, 0x30, 0x99]), r.randrange(256)] + rb(6)
+            gl = r.choice([0, 0, 4, 8, 12, 20]) if g[0] == 0x11 else r.choice([0, 0, 8, 16])
+            out.append({'kind': 'igmp', 'src': [], 'dst': [], 'hdr': g, 'payload': rb(gl)})
+    for ihl in range(5, 16):
+        for rep in range(6 if tier == 'quick' else 40):
+            h = rb(4 * ihl)
+            h[0] = 0x40 | ihl
+            tl = 4 * ihl + r.randrange(0, 100)
+            h[2], h[3] = tl >> 8, tl & 255
+            out.append({'kind': 'ipv4hdr', 'src': [], 'dst': [], 'hdr': h, 'payload': []})
+    # received ICMPv6 messages: a correct checksum and every single bit corruption of a small message
+    return out
+
+
+JOBS['C09'] = Job('C09', mc='MC_Checksum', tag='CKS', drive='cks-run', trace='Trace_Checksum',
+                  invariants=['SplitIndependence', 'KnownAnswers', 'Emit'],
+                  consts_quick={'Alphabet': '{1, 255}', 'MaxLen': 8}, consts_thorough={'Alphabet': '{0, 1, 255}', 'MaxLen': 9},
+                  extra=cks_extra,
+                  describe='one case = one chunking of a byte string into add_2/4/8/16bytes / add_slice calls (the folded sum of all three register widths is '
+                           'validated after every call), a saturated wide register, or one header+payload+address set run through every checksum function of a protocol',
+                  assumptions=['TLC explores the 16 bit machine; the 32/64 bit registers of the implementation are bound per step on directed (saturating) and seeded inputs, not exhausted',
+                               'little endian host (the pre-loaded register test assumes it)',
+                               'UDP over IPv6 jumbograms (payload > 65527) are not generated'])
+
+
 def run(pid, tier, seed, replay=None):
     return run_job(JOBS[pid], pid, tier, seed, replay)
